@@ -331,11 +331,28 @@ func c09Judge(c *core.Ctx, k c09case, res *core.ShardResult) (vs []core.Violatio
 		return
 	}
 	started2, _ := k.logStatus(log2)
+	// a program that cannot be started is an error of the runner, not a failing command: spok stops the
+	// whole invocation there, so the tasks after it are not reached (in the second run as in the first)
+	stopsRun := false
+	for _, t := range k.Tasks {
+		for _, cmd := range t.Cmds {
+			if cmd.Fail && (cmd.Form == "noexec" || cmd.Form == "badinterp") && inClosure[t.Name] {
+				stopsRun = true
+			}
+		}
+	}
+	again := 0
 	for _, n := range failed {
-		if !started2[n] {
+		if started2[n] {
+			again++
+		} else if !stopsRun {
 			bad("failed-task-not-up-to-date", "task %s failed in the first run (flags %v) but was not run again by the second (exit %d, log %v, stderr %s)", n, k.Flags, inv2.Exit, log2, core.Trunc(inv2.Stderr, 200))
 			return
 		}
+	}
+	if again == 0 {
+		bad("failed-task-not-up-to-date", "none of the tasks that failed in the first run (%v, flags %v) was run again by the second (exit %d, log %v, stderr %s)", failed, k.Flags, inv2.Exit, log2, core.Trunc(inv2.Stderr, 200))
+		return
 	}
 	if inv2.Exit == 0 {
 		bad("invocation-fails", "the failing commands ran again in the second run but spok exited 0")
